@@ -439,8 +439,8 @@ impl<'a, 'tcx> BodyCx<'a, 'tcx> {
                     v.push(("int", J::Int(sv as i128)));
                 } else if t.is_floating_point() {
                     v.push(("fbits", J::s(format!("{:#x}", bits))));
-                    let fv = if size.bytes() == 4 { f32::from_bits(bits as u32) as f64 } else { f64::from_bits(bits as u64) };
-                    v.push(("ftext", J::s(format!("{:?}", fv))));
+                    let ft = if size.bytes() == 4 { format!("{:?}", f32::from_bits(bits as u32)) } else { format!("{:?}", f64::from_bits(bits as u64)) };
+                    v.push(("ftext", J::s(ft)));
                 } else {
                     v.push(("int", J::Int(bits as i128)));
                 }
